@@ -18,7 +18,9 @@ What holds and what does not, clause by clause (details at each theorem). Two de
 in /repo (a61f1aeb: the reload path uses the same confirmsRequired; db1b9b14: updateLIB ignores a lower candidate) and the
 model follows the repaired code; three are recorded as known findings and stay visible here as proved negations.
 
- * veto rules                      — `veto_below_lib`: exact, for the LIB the Status object currently holds.
+ * veto rules / never undone       — `veto_below_lib`: exact, for the LIB the Status object currently holds;
+                                     `below_lib_never_replaced`: along every sequence of chain-service activities that passed the
+                                     vetoes (no restart) the number index at and below the LIB is never changed.
                                      KNOWN C08-restart-lazy-load-veto-gap: `restart_forgets_lib` — after a restart that LIB is 0
                                      until the first Update (witness `restart_veto_gap_witness`).
  * > 2/3 distinct producers        — `quorum_more_than_two_thirds`, `libIndex_leaves_quorum` (formulas), `reload_same_quorum`,
@@ -63,8 +65,9 @@ theorem majority_eq_confirmsRequired (n : Int) :
     Gen.LibQuorum.majorityCount n = Gen.LibQuorum.confirmsRequired n := rfl
 
 /-- calcLIB's index `(len−1)/3` leaves at least `confirmsRequired len` entries at or above the selected one:
-the selected pre-LIB is reached by more than two thirds of the producers PRESENT IN THE MAP (not of all producers:
-see `lib_monotone_false_new_producer`). -/
+the selected pre-LIB is reached by more than two thirds of the producers PRESENT IN THE MAP (not of all producers: a
+producer's first entry lengthens the list and could lower the selection — the regression example of the repaired class
+C08-lib-decreases-when-producer-first-seen below; the relation to the full producer count is `lib_quorum_of_all`). -/
 theorem libIndex_leaves_quorum (len : Nat) (h : 1 ≤ len) :
     libIndex len < len ∧ confirmsRequired len ≤ len - libIndex len := by
   rw [libIndex_eq, confirmsRequired_eq]; omega
@@ -1051,6 +1054,96 @@ theorem lpb_regress_witness :
   decide +kernel
 
 end witnesses2
+
+/-! ## 11. Never undone: the main chain at and below the LIB -/
+
+/-- One activity of the chain service on a loaded Status: the veto function is evaluated FIRST (in the state the step starts in:
+chainhandle.go addBlockInternal calls VerifyTimestamp before anything else, reorg.go calls NeedReorganization before the rollback),
+then blocks are stored and `Status.Update` is called any number of times (connect branch, rollback, roll-forward), then the number
+index is changed once (`connectToChain(b)` or `swapChainMapping(nb)`). -/
+structure Step where
+  quiet : List Op
+  idx : Op
+
+def Step.ops (s : Step) : List Op := s.quiet ++ [s.idx]
+
+/-- the step passed the veto: a connected block was accepted by VerifyTimestamp, a swapped-in branch has a root allowed by
+NeedReorganization (all its blocks are numbered above the root). -/
+def Step.Enabled (n : Node) (s : Step) : Prop :=
+  (∀ op ∈ s.quiet, QuietOp op) ∧
+  match s.idx with
+  | .connect b => verifyTs n b = true
+  | .swap nb => ∃ root, needReorg n root = true ∧ ∀ b ∈ nb, root < b.no
+  | _ => False
+
+def StepsEnabled : Node → List Step → Prop
+  | _, [] => True
+  | n, s :: rest => s.Enabled n ∧ StepsEnabled (n.run s.ops) rest
+
+/-- **below_lib_never_replaced** (first clause of the property, over histories). On a node whose Status has loaded its finality
+status, along EVERY sequence of chain-service activities that passed the vetoes (any blocks, any Confirms values, any number of
+reorganisations, no restart): the LIB number never decreases and the main chain (number index) at every number at or below the LIB
+the Status held at the start is never changed. Since this holds from every intermediate state on, no block at or below a LIB the
+node has ever reported is replaced later. (Restart: the veto gap `restart_forgets_lib`, known finding, is the exception.) -/
+theorem below_lib_never_replaced : ∀ (steps : List Step) (n : Node), n.done = true → StepsEnabled n steps →
+    (n.run (steps.flatMap Step.ops)).done = true ∧
+    n.ls.lib.no ≤ (n.run (steps.flatMap Step.ops)).ls.lib.no ∧
+    ∀ k, k ≤ n.ls.lib.no → hashByNo (n.run (steps.flatMap Step.ops)) k = hashByNo n k
+  | [], n, hd, _ => ⟨hd, Nat.le_refl _, fun _ _ => rfl⟩
+  | s :: rest, n, hd, he => by
+    obtain ⟨⟨hq, hidx⟩, hrest⟩ := he
+    have hrun : n.run ((s :: rest).flatMap Step.ops) = (n.run s.ops).run (rest.flatMap Step.ops) := by
+      simp [Node.run, List.flatMap_cons, List.foldl_append]
+    -- the step contains no restart
+    have hnr : ∀ op ∈ s.ops, op ≠ Op.restart := by
+      intro op hop
+      unfold Step.ops at hop
+      rcases List.mem_append.mp hop with h | h
+      · have := hq op h
+        intro e; rw [e] at this; exact this
+      · simp only [List.mem_singleton] at h
+        rw [h]
+        intro e; rw [e] at hidx; exact hidx
+    obtain ⟨d1, m1⟩ := lib_monotone n s.ops hd hnr
+    -- the index below the LIB is untouched by the step
+    have hstep : ∀ k, k ≤ n.ls.lib.no → hashByNo (n.run s.ops) k = hashByNo n k := by
+      intro k hk
+      have e1 : n.run s.ops = (n.run s.quiet).apply s.idx := by
+        simp [Step.ops, Node.run, List.foldl_append]
+      have hqi : (n.run s.quiet).index = n.index := quiet_run_index s.quiet n hq
+      have hsame : hashByNo (n.run s.quiet) k = hashByNo n k := by unfold hashByNo; rw [hqi]
+      rw [e1, ← hsame]
+      cases hi : s.idx with
+      | blk b => rw [hi] at hidx; exact absurd hidx (by simp)
+      | update b hint => rw [hi] at hidx; exact absurd hidx (by simp)
+      | restart => rw [hi] at hidx; exact absurd hidx (by simp)
+      | connect b =>
+        rw [hi] at hidx
+        simp only at hidx
+        have := ((veto_below_lib n 0 b).2).mp hidx
+        exact hashByNo_connect_ne _ b (by omega)
+      | swap nb =>
+        rw [hi] at hidx
+        obtain ⟨root, hr, hnb⟩ := hidx
+        have := ((veto_below_lib n root default).1).mp hr
+        exact hashByNo_swap_below _ nb (fun b hb => by have := hnb b hb; omega)
+    obtain ⟨d2, m2, i2⟩ := below_lib_never_replaced rest (n.run s.ops) d1 hrest
+    rw [hrun]
+    refine ⟨d2, Nat.le_trans m1 m2, ?_⟩
+    intro k hk
+    rw [i2 k (Nat.le_trans hk m1), hstep k hk]
+
+/-- the hypotheses are met by a non-trivial history (evaluation — a test): eight main-chain blocks, then the permitted
+reorganisation of `reorg9` (veto evaluated first, rollback, roll-forward, swap), on a node whose LIB is 4. -/
+example :
+    let n := (newNode "p0" ["p0", "p1", "p2", "p3"]).run main8
+    n.done = true ∧ n.ls.lib.no = 4 ∧
+      StepsEnabled n [⟨[.blk c8, .blk c9, .update b7 "", .update c8 "", .update c9 ""], .swap [c9, c8]⟩] := by
+  refine ⟨by decide +kernel, by decide +kernel, ⟨?_, ?_⟩, trivial⟩
+  · intro op hop
+    simp only [List.mem_cons, List.mem_nil_iff, or_false] at hop
+    rcases hop with rfl | rfl | rfl | rfl | rfl <;> trivial
+  · exact ⟨7, by decide +kernel, by decide⟩
 
 /-
 **agreement — the full statement is FALSE for the pinned protocol, even with f = 0.**
